@@ -31,7 +31,7 @@ func props() []prop {
 	return []prop{
 		{
 			ID: "C18", Level: "exploration",
-			LevelText:   "Fixpoint monitor over a deterministic virtual-time simulation that drives 2..7 real NodeActor instances (the production gossip / join / failure-detection code) through a mock ActorContext: simulated network (per-pair FIFO, PRNG cross-pair order, latency, loss, partitions), simulated scheduler timers, messages through the real cluster codec. 1 500 (thorough 60 000) PRNG-generated scenarios over join orders, seed configurations (incl. self-seeded islands), option sweeps and fault phases (crash, restart with same / fresh id before / after removal, graceful Leave, partitions, loss, delay). Bounded-progress restatement: after the last fault + 3 x (timeout + confirm) + 20 intervals of virtual time, for a window of 2 x (timeout + confirm): every running node holds exactly the running nodes (newest incarnation, Up), one common leader, exactly one self-leader, no membership / leader announcements.",
+			LevelText:   "Fixpoint monitor over a deterministic virtual-time simulation that drives 2..7 real NodeActor instances (the production gossip / join / failure-detection code) through a mock ActorContext: simulated network (per-pair FIFO, PRNG cross-pair order, latency, loss, partitions), simulated scheduler timers, messages through the real cluster codec. 1 500 (thorough 60 000) PRNG-generated scenarios over join orders, seed configurations (incl. self-seeded islands), option sweeps and fault phases (crash, restart with same / fresh id before / after removal, graceful Leave, partitions, one-way cuts, loss, delay; fault durations aimed below the detection timeout, inside the suspicion window and beyond removal). A second unit runs real systems over loopback TCP through the public API only, one shard with join / Leave / restart / late joiner / double stop, one shard in which the leader lives in a child process that is killed with SIGKILL and restarted after and before its removal. Bounded-progress restatement: after the last fault + 3 x (timeout + confirm) + 20 intervals of virtual time, for a window of 2 x (timeout + confirm): every running node holds exactly the running nodes (newest incarnation, Up), one common leader, exactly one self-leader, no membership / leader announcements.",
 			LevelNote:   "Unbounded 'eventually' is not decidable by a finite run: the bound above is a logical bound in virtual time. The simulated Tell drops instantly where the real one blocks (D15), multi-DC options are not swept, and the real remoting stack is not in the loop (that is C11/C14/C15).",
 			Technique:   "runtime monitoring of the real NodeActor code under a deterministic fault-injecting simulator (virtual time), fixpoint + event-stream monitor",
 			DesignRef:   "DESIGN.md §2.8, §4 C18",
@@ -43,7 +43,7 @@ func props() []prop {
 		},
 		{
 			ID: "C15", Level: "exploration",
-			LevelText:   "Differential runtime monitor on two real systems connected over loopback TCP: every scenario of the operation matrix (Tell, tell-back, Ask x {reply, none, twice, error, custom, user-codec}, Kill x {system, poison}, Ping, PipeTo / Future.PipeTo x {success, timeout, error} to a local and a remote forwarder, Watch / double Watch / two watchers / Unwatch, scheduler Once / Loop+Cancel) x {ActorContext, ActorSystem} x {no user codec, user codec} is executed with a local and with a remote target; every participant's observation log (contents, senders with address check, OnKill/OnKilled fields, PipeResult, outcomes, final liveness) must be equal role by role.",
+			LevelText:   "Differential runtime monitor on two real systems connected over loopback TCP: every scenario of the operation matrix (Tell, tell-back, Ask x {reply, none, twice, error, custom, user-codec}, Kill x {system, poison}, Ping, PipeTo / Future.PipeTo x {success, timeout, error} to a local and a remote forwarder, Watch / double Watch / two watchers / Unwatch, scheduler Once / Loop+Cancel, payloads incl. a registered message without any field) x {ActorContext, ActorSystem} x {no user codec, user codec} is executed with a local and with a remote target; every participant's observation log (contents, senders with address check, OnKill/OnKilled fields, PipeResult, outcomes, final liveness) must be equal role by role.",
 			LevelNote:   "The oracle is the local run of the same scenario (no hand-written expectation), so a behaviour that is equally wrong locally and remotely is not reported here (the local semantics are C03-C09). Real time is used only to wait for quiescence of the logs; timeouts inside scenarios (700 ms Ask) are far above loopback latency, and a difference must reproduce in a second run to be reported.",
 			Technique:   "differential monitoring (local run vs remote run of the same scenario on real systems), observation logs compared offline",
 			DesignRef:   "DESIGN.md §4 C15",
@@ -54,7 +54,7 @@ func props() []prop {
 		},
 		{
 			ID: "C14", Level: "fault_enumeration",
-			LevelText:   "Connection faults are enumerated against real systems on loopback: the proxy cuts the stream after exactly k bytes for every 8th (thorough: every) byte offset of a handshake + 5-frame stream x reconnect limits, then heals; connections refused for the whole retry budget; a raw client injects undecodable / truncated / unknown-name / oversize / zero-length frames in front of valid frames on one connection; an unframeable 5 MiB payload between normal messages; peer stop and restart on the same address. Deciding monitors: subsequence/CRC monitor at the receiving behaviour, recovery monitor (after the first delivery over the healed link nothing is lost any more), dead-letter ledger on the sender, and a goroutine-stack witness (a logical observation, no timing) for 'Tell blocks its caller in the reconnect loop'.",
+			LevelText:   "Connection faults are enumerated against real systems on loopback: the proxy cuts the stream after exactly k bytes for every 8th (thorough: every) byte offset of a handshake + 5-frame stream x reconnect limits, then heals; connections refused for the whole retry budget; a raw client injects undecodable / truncated / unknown-name / oversize / zero-length frames in front of valid frames on one connection; an unframeable 5 MiB payload between normal messages; peer stop and restart on the same address; a peer that accepts and never answers (thorough). Deciding monitors: subsequence/CRC monitor at the receiving behaviour, recovery monitor (after the first delivery over the healed link nothing is lost any more), dead-letter ledger on the sender, and a goroutine-stack witness (a logical observation, no timing) for 'Tell blocks its caller in the reconnect loop'.",
 			LevelNote:   "Trusted: loopback TCP; the first write after a peer-side close can be accepted by the kernel and lost (TCP semantics): the recovery clause therefore starts at the first post-heal delivery. Bounded-progress restatement of 'later messages are delivered': within 12 sends 15 ms apart.",
 			Technique:   "fault enumeration (cut at every byte offset, refuse, inject, restart) with offline monitors over recorded deliveries, dead letters and goroutine stacks",
 			DesignRef:   "DESIGN.md §4 C14",
@@ -65,7 +65,7 @@ func props() []prop {
 		},
 		{
 			ID: "C11", Level: "exploration",
-			LevelText:   "Two real actor systems talk over loopback TCP through an in-harness proxy that never drops a byte but re-segments the stream in four ways (as is, 1-byte writes, PRNG splits, coalescing), i.e. it varies exactly what kernel timing otherwise decides: how frames are split over reads. Every message carries (sender, sequence number, CRC); the monitor at the receiving behaviours decides exactly-once / order / integrity from the sequence numbers (a gap is a loss only when a later message of that sender arrived), Ask replies must carry the asker's id, observers on both systems must see no decode failure and no dead letter.",
+			LevelText:   "Two real actor systems talk over loopback TCP through an in-harness proxy that never drops a byte but re-segments the stream in four ways (as is, 1-byte writes, PRNG splits, coalescing), i.e. it varies exactly what kernel timing otherwise decides: how frames are split over reads. Every message carries (sender, sequence number, CRC); the monitor at the receiving behaviours decides exactly-once / order / integrity from the sequence numbers (a gap is a loss only when a later message of that sender arrived), Ask replies must carry the asker's id, observers on both systems must see no decode failure and no dead letter for a valid message; bursts with messages that cannot be put on the wire in the middle (the valid ones around them still arrive, the others are dead-lettered on the sender); concurrent first contact; Tell ... Tell; Stop.",
 			LevelNote:   "Trusted: loopback TCP only (no kernel-level reordering, no TLS); the final 'tail' clause waits until nothing moved for 5 s and is skipped (inconclusive) when the stall detector saw the scheduler starve for > 1 s.",
 			Technique:   "sequence/checksum monitor over recorded deliveries under an adversarial (never-dropping) stream re-segmentation proxy",
 			DesignRef:   "DESIGN.md §4 C11",
@@ -98,7 +98,7 @@ func props() []prop {
 		},
 		{
 			ID: "C10", Level: "exploration",
-			LevelText:   "Free-running hammer under the Go race detector on all cores: many goroutines call exactly the API documented as concurrency-safe while actors spawn from their handlers, fail under every decision and die; one child process per batch so that a process-fatal error (concurrent map access) is attributed; the deciding monitors are the race detector's reports whose stacks contain vivid code (de-duplicated by the pair of innermost vivid frames), the crash sentinel, and the tree-consistency invariant (registry == set reachable from the root through children) sampled at quiescence. The race detector additionally runs in the futures and event-stream units.",
+			LevelText:   "Free-running hammer under the Go race detector on all cores: many goroutines call exactly the API documented as concurrency-safe while actors spawn from their handlers, fail under every decision and die; one child process per batch so that a process-fatal error (concurrent map access) is attributed; the deciding monitors are the race detector's reports whose stacks contain vivid code (de-duplicated by the pair of innermost vivid frames), the crash sentinel, and the tree-consistency invariant (registry == set reachable from the root through children) sampled at quiescence; a third of the batches concentrates on the event stream, a third on futures (every future is closed / awaited / piped by 3-8 goroutines released together while replies and a timeout race; yield points inserted into future.go run in a lock-free fuzz mode so that they add no happens-before edges; all observations of one future must agree). The race detector additionally runs in the futures and event-stream units.",
 			LevelNote:   "Trusted: the race detector only reports races that occur in the batch; a silent run is not race-freedom. ActorContext.ActorOf is documented as not concurrency-safe and is only called from the owning handler.",
 			Technique:   "race detector + crash sentinel + hooked-state invariant under a concurrent stress workload",
 			DesignRef:   "DESIGN.md §4 C10",
@@ -110,7 +110,7 @@ func props() []prop {
 		},
 		{
 			ID: "C07", Level: "exploration",
-			LevelText:   "All sequential call sequences of length <= 4 over {Start, Stop, Stop(t), context cancel} and PRNG scenarios with groups of concurrent calls are executed on real systems (populated with trees in awkward states: restart in progress, paused supervisor, stash content, zombie, an actor held in a handler) inside a synctest bubble. The recorded call/return/result history must be linearizable (porcupine) w.r.t. the ready->started->stopped reference machine; every call must return within its timeout of virtual time (rejections in zero time); after a successful Stop or a cancel nothing may be registered; synctest reports any goroutine of the system left blocked when the scenario ends. An inject tier puts a maximal delay at one statement of Start/stop so that the other calls land inside it. A real-time unit repeats Start/Stop with remoting between two systems and polls the goroutine profile for frames of vivid/go-quartz.",
+			LevelText:   "All sequential call sequences of length <= 4 over {Start, Stop, Stop(t), context cancel} and PRNG scenarios with groups of concurrent calls are executed on real systems (populated with trees in awkward states: restart in progress, paused supervisor, stash content, zombie, an actor held in a handler) inside a synctest bubble. The recorded call/return/result history must be linearizable (porcupine) w.r.t. the ready->started->stopped reference machine; every call must return within its timeout of virtual time (rejections in zero time); after a successful Stop or a cancel nothing may be registered; synctest reports any goroutine of the system left blocked when the scenario ends. An inject tier puts a maximal delay at one statement of Start/stop so that the other calls land inside it. A real-time unit repeats Start/Stop with remoting between two systems (incl. Stop during outbound retries with a timeout far below the retry budget) and polls the goroutine profile for frames of vivid/go-quartz.",
 			LevelNote:   "Trusted: porcupine, synctest (virtual-time bounds are exact; leftover goroutines are reported by the runtime), the goroutine-profile parser of the real-time unit (bounded polling, stall-gated).",
 			Technique:   "linearizability check of recorded call histories against a reference state machine + virtual-time bounds + goroutine-leak monitor",
 			DesignRef:   "DESIGN.md §4 C07",
@@ -123,7 +123,7 @@ func props() []prop {
 		},
 		{
 			ID: "C04", Level: "exploration",
-			LevelText:   "PRNG scenarios of concurrent Asks, scripted responders, timeouts, Close, PipeTo and asker death run on the real futures in a synctest bubble, where 'not before the timeout', 'no later than the first due completion' and 'never completed' are exact; observers in 1-8 goroutines record (value, error, virtual instant); the oracle requires agreement of all observers (one-shot), the future's own first reply, completion at the earliest due candidate with the matching outcome, exactly one PipeResult per forwarder equal to Result(), and an empty future registry afterwards (hooked state). A second unit repeats the scenarios under the race detector (completion vs PipeTo vs timer).",
+			LevelText:   "PRNG scenarios of concurrent Asks, scripted responders, timeouts, Close, PipeTo and asker death run on the real futures in a synctest bubble, where 'not before the timeout', 'no later than the first due completion' and 'never completed' are exact; observers in 1-8 goroutines record (value, error, virtual instant); the oracle requires agreement of all observers (one-shot), the future's own first reply, completion at the earliest due candidate with the matching outcome, exactly one PipeResult per forwarder equal to Result(), and an empty future registry afterwards (hooked state). 15 % of the scenarios are kill races (old outstanding Asks, a volley of immediately answered Asks and the Kill at one instant). A second unit repeats the scenarios under the race detector (completion vs PipeTo vs timer), a third injects maximal delays at chosen statements.",
 			LevelNote:   "Trusted: synctest clock and quiescence; candidate instants are taken at the API boundary (ask processed, reply sent, kill/Close issued). Entrust futures get the one-shot check only through Context.Entrust users (not generated).",
 			Technique:   "history oracle over recorded completions under an exact virtual clock + hooked-state registry invariant + race detector",
 			DesignRef:   "DESIGN.md §4 C04",
@@ -148,7 +148,7 @@ func props() []prop {
 		},
 		{
 			ID: "C20", Level: "exploration",
-			LevelText:   "Exact reference-model comparison in virtual time: PRNG programs of Once/Loop/Cron/Cancel/Clear/Kill/fail-and-restart (incl. cancellations aimed at firing instants and malformed cron expressions) run on the real scheduler stack (vivid Scheduler -> go-quartz -> mailbox) inside a synctest bubble whose clock is exact; every delivery (and dead letter) of a scheduled message is recorded with its virtual instant and compared with the model: required firings exactly once, nothing early, nothing at/after cancel, clear, owner termination or restart (a tie at the same instant is accepted either way), parse errors for invalid cron, not-found for unknown cancel, original message value, through the mailbox (handler overlap monitor).",
+			LevelText:   "Exact reference-model comparison in virtual time: PRNG programs of Once/Loop/Cron/Cancel/Clear/Kill/fail-and-restart (incl. cancellations aimed at firing instants and malformed cron expressions) run on the real scheduler stack (vivid Scheduler -> go-quartz -> mailbox) inside a synctest bubble whose clock is exact; every delivery (and dead letter) of a scheduled message is recorded with its virtual instant and compared with the model: required firings exactly once, nothing early, nothing at/after cancel, clear, owner termination or restart (a tie at the same instant is accepted either way), parse errors for invalid cron, not-found for unknown cancel, original message value, through the mailbox (handler overlap monitor). A second, enumerated unit (schedtwins) lets two actors whose identities are easy to confuse (same name under different parents, anonymous, parent and child, name prefix, ':' and '::' in names and references) schedule under the same reference and requires each job to fire exactly as its own history dictates whatever happens to the other.",
 			LevelNote:   "Trusted: the 60-line reference model, synctest's clock, the fixed pool of cron expressions go-quartz itself rejects. Re-using a live reference on the same actor is unspecified and not generated. go-quartz's 100 ms 'outdated job' rule needs real scheduler stalls and cannot occur in virtual time.",
 			Technique:   "reference-model comparison of recorded delivery instants under an exact virtual clock",
 			DesignRef:   "DESIGN.md §4 C20",
@@ -187,7 +187,7 @@ func props() []prop {
 		},
 		{
 			ID: "C03", Level: "exploration",
-			LevelText:   "Conservation ledger over recorded runs of the real system in a synctest bubble: every user message id sent through System.Tell/ActorContext.Tell is matched at the bubble's exact quiescence against {processed by the target's behaviour, sitting in a stash, published once as DeathLetterEvent}; PRNG histories vary target state (running, killing, stopped while paused, restarting, terminated, never existed) and reference provenance (ActorOf value, Clone, ParseRef, FindActor) with sends racing transitions at one virtual instant; the enumerated supervision matrices add the stopped-while-paused and restart cases systematically; a post-Stop phase checks that late sends cause no further work.",
+			LevelText:   "Conservation ledger over recorded runs of the real system in a synctest bubble: every user message id sent through System.Tell/ActorContext.Tell is matched at the bubble's exact quiescence against {processed by the target's behaviour, sitting in a stash, published once as DeathLetterEvent}; PRNG histories vary target state (running, killing, stopped while paused, restarting, terminated, never existed) and reference provenance (ActorOf value, Clone, ParseRef, FindActor) with sends racing transitions at one virtual instant; the enumerated supervision matrices add the stopped-while-paused and restart cases systematically; a post-Stop phase checks that late sends cause no further work; former zombies are probed after their release (by Kill or by the parent's termination) through all three reference provenances.",
 			LevelNote:   "Trusted: synctest quiescence as the 'never delivered' oracle; the zombie exception is applied as documented. Remote targets belong to C14, system messages are not in the ledger.",
 			Technique:   "offline conservation / exactly-once checker over recorded event logs at a quiescence oracle",
 			DesignRef:   "DESIGN.md §4 C03",
@@ -225,7 +225,7 @@ func props() []prop {
 		},
 		{
 			ID: "C01", Level: "exploration",
-			LevelText:   "The real UnboundedMailbox is executed under (1) serialized random schedules at statement granularity (every statement of unbounded_mailbox.go is a yield point inserted at check time; synctest virtual time guarantees exactly one goroutine runs between two points, so each case is a deterministic, replayable interleaving; tens of thousands of distinct interleavings per quick run) and (2) free-running stress on all cores under the race detector. Monitors: in-flight handler counter (<=1), exactly-once ledger, quiescent-state invariant (idle && no system mail && (no user mail || paused)), pause rule, idle-step budget (spin). The M-overlap monitor additionally runs in every actor-level check.",
+			LevelText:   "The real UnboundedMailbox is executed under (1) serialized random schedules at statement granularity (every statement of unbounded_mailbox.go is a yield point inserted at check time; synctest virtual time guarantees exactly one goroutine runs between two points, so each case is a deterministic, replayable interleaving; delays are bursty with a stall class, programs may start from a sequentially prepared state such as an already paused mailbox; about 10^5 distinct interleavings per quick run) and (2) free-running stress on all cores under the race detector. Monitors: in-flight handler counter (<=1), exactly-once ledger, quiescent-state invariant (idle && no system mail && (no user mail || paused)), pause rule, idle-step budget (spin). The M-overlap monitor additionally runs in every actor-level check.",
 			LevelNote:   "Trusted: vinstr (syntax-driven insertion of yield calls), synctest's scheduling guarantee, sequential consistency at statement granularity in the serialized tier (weaker memory effects only in the stress tier). User-supplied Mailbox implementations are out of scope.",
 			Technique:   "controlled-schedule exploration of the real code with online invariant monitors + race detector stress",
 			DesignRef:   "DESIGN.md §4 C01",
